@@ -65,11 +65,130 @@ def accept_model(gen_dir, ref_dir):
             shutil.copy(os.path.join(gen_dir, f), os.path.join(ref_dir, f + ".ref"))
 
 
+
+# ---------------------------------------------------------------- auxiliary lemmas for list-recursive loops
+def _top_groups(h):
+    """balanced top-level bracket groups of a header: list of (open_char, inner_text, start, end)"""
+    out, i, n = [], 0, len(h)
+    pairs = {"(": ")", "[": "]", "{": "}"}
+    while i < n:
+        c = h[i]
+        if c in pairs:
+            depth, j = 1, i + 1
+            while j < n and depth:
+                if h[j] in pairs:
+                    depth += 1
+                elif h[j] in pairs.values():
+                    depth -= 1
+                j += 1
+            out.append((c, h[i + 1:j - 1], i, j))
+            i = j
+        else:
+            i += 1
+    return out
+
+
+def _two_terms(t):
+    """split `R S` (each an atom or a bracketed term) — the arguments of `LoopR`"""
+    t = t.strip()
+    terms = []
+    while t:
+        if t[0] == "(":
+            g = _top_groups(t)[0]
+            terms.append(t[:g[3]])
+            t = t[g[3]:].strip()
+        else:
+            m = re.match(r"\S+", t)
+            terms.append(m.group(0))
+            t = t[m.end():].strip()
+    return terms
+
+
+def list_loop_aux(name, body):
+    """For a translator-made list loop without early exit
+         def NAME {implicit} [inst] (l_ : List β) (params…) : LoopR ρ σ := match l_ with | [] => LoopR.done S | x_ :: l_ => … (NAME l_ params')
+       the text of (a) `NAME.mq_step`, one round of the loop, defined SEMANTICALLY as the loop run on the singleton list (no
+       parsing of the loop body), and (b) `NAME.mq_fold : NAME l_ params = LoopR.done (List.foldl (NAME.mq_step consts) S l_)`,
+       proved by induction on the list.  None when the definition does not have that shape (then nothing is emitted; a wrong
+       guess can only produce a lemma that fails to check)."""
+    m = re.match(r"(?:@\[[^\]]*\]\s*\n)?(?:noncomputable\s+)?def\s+(\S+)\s+(.*?)\s*:=\s*\n\s*match l_ with\n\s*\| \[\] => LoopR\.done ([^\n]*)\n", body, re.S)
+    if not m or m.group(1) != name:
+        return None
+    header, done = m.group(2), m.group(3).strip()
+    rest = body[m.end():]
+    if "LoopR." in rest or "\n" in header:      # early return / break / nested hang: not a fold
+        return None
+    groups = _top_groups(header)
+    # return type: after the `:` that stands outside every bracket
+    colon = None
+    for i, c in enumerate(header):
+        if c == ":" and not any(g[2] < i < g[3] for g in groups):
+            colon = i
+            break
+    if colon is None:
+        return None
+    groups = [g for g in groups if g[3] <= colon]
+    expl = [g for g in groups if g[0] == "("]
+    if not expl:
+        return None
+    ret = header[colon + 1:].strip()
+    if not ret.startswith("LoopR "):
+        return None
+    rs = _two_terms(ret[len("LoopR "):])
+    if len(rs) != 2:
+        return None
+    sigma = rs[1]
+    binders = []
+    for g in expl:
+        mm = re.match(r"\s*(\S+)\s*:\s*(.*)$", g[1], re.S)
+        if not mm:
+            return None
+        binders.append((mm.group(1), mm.group(2).strip()))
+    if binders[0][0] != "l_":
+        return None
+    ml = re.match(r"List\s+(.*)$", binders[0][1])
+    if not ml:
+        return None
+    beta = ml.group(1)
+    implicit = header[:expl[0][2]].strip()
+    if done == "()":
+        state = []
+    elif done.startswith("("):
+        state = [x.strip() for x in done[1:-1].split(",")]
+    else:
+        state = [done]
+    pnames = [b[0] for b in binders[1:]]
+    if any(not re.match(r"^[A-Za-z_][A-Za-z_0-9']*$", x) for x in state) or any(x not in pnames for x in state) or len(set(state)) != len(state):
+        return None
+    consts = [b for b in binders[1:] if b[0] not in state]
+    alpha = " (α := α)" if re.search(r"\{α : Type\}", implicit) else ""
+    k = len(state)
+    def comp(i):
+        if k == 1:
+            return "s_"
+        return "s_" + ".2" * i + (".1" if i < k - 1 else "")
+    call_args = " ".join(comp(state.index(b)) if b in state else b for b in pnames)
+    cb = " ".join(f"({n} : {t})" for n, t in consts)
+    cn = " ".join(n for n, _ in consts)
+    ab = " ".join(f"({n} : {t})" for n, t in binders)
+    an = " ".join(n for n, _ in binders)
+    stup = "()" if k == 0 else (state[0] if k == 1 else "(" + ", ".join(state) + ")")
+    gen = ("generalizing " + " ".join(state)) if state else ""
+    ihargs = " ".join("_" for _ in state)
+    txt = (f"def {name}.mq_step {implicit} {cb} (s_ : {sigma}) (x_ : {beta}) : {sigma} :=\n"
+           f"  match {name}{alpha} [x_] {call_args} with\n  | LoopR.done s' => s'\n  | _ => s_\n"
+           f"theorem {name}.mq_fold {implicit} {ab} :\n"
+           f"    {name}{alpha} {an} = LoopR.done (List.foldl ({name}.mq_step{alpha} {cn}) {stup} l_) := by\n"
+           f"  induction l_ {gen} with\n  | nil => rfl\n  | cons x l ih => first | exact ih {ihargs} | (simp only [List.foldl_cons]; exact ih {ihargs})\n")
+    return txt
+
+
 TACTIC = r"""
 open Lean Elab Tactic in
 /-- equality of two generated definitions: definitional unfolding first (new `let`s, renamed locals, extracted or
     inlined helpers, literals turned into constants), then extensionality + case analysis on the `if`s (conditions
-    turned round), then induction on the fuel for lifted loops -/
+    turned round), then the fold lemmas of the list loops (explicit `for` loop ↔ iterator chain; `MQ_FOLD` is the list of
+    the `….mq_fold` lemmas emitted for this run), then induction on the fuel for lifted loops -/
 macro "model_equiv" n1:ident n2:ident : tactic => `(tactic|
   first
   | rfl
@@ -78,11 +197,28 @@ macro "model_equiv" n1:ident n2:ident : tactic => `(tactic|
      | rfl
      | (simp only [$n1:ident, $n2:ident, ite_not, not_not, Bool.not_eq_true, ne_eq, not_le, not_lt]; done)
      | (unfold $n1 $n2; (try dsimp only); split_ifs <;> first | rfl | (exfalso; simp_all; done) | (simp_all; done))
-     | (unfold $n1 $n2; (try dsimp only); repeat' split <;> first | rfl | (exfalso; simp_all; done) | (simp_all; done)))
+     | (unfold $n1 $n2; (try dsimp only); (repeat' split <;> first | rfl | (exfalso; simp_all; done) | (simp_all; done)); done)
+     | (unfold $n1 $n2; simp only [MQ_FOLD]; rfl)
+     | (unfold $n1 $n2; simp only [MQ_FOLD]; (repeat' split <;> first | rfl | (exfalso; simp_all; done) | (simp_all; done)); done)
+     | (simp only [$n1:ident, $n2:ident, MQ_FOLD, ite_not, not_not, Bool.not_eq_true, ne_eq, not_le, not_lt]
+        first | done | rfl | ((repeat' split <;> first | rfl | (exfalso; simp_all; done) | (simp_all; done)); done)))
   | (intros; funext; intros
      rename_i fuel _
      induction fuel <;> simp_all [$n1:ident, $n2:ident]))
 """
+
+# rewriting lemmas that bring iterator chains to one `List.foldl` (all in core / Statrs.Basic)
+FOLD_SIMP = ["List.foldl_map", "List.map_id'", "List.map_id_fun'", "List.map_map", "Statrs.fsum", "Statrs.fprod", "List.foldl_cons", "List.foldl_nil"]
+
+
+def _tokens(text):
+    return set(re.findall(r"[A-Za-z_][A-Za-z_0-9.']*", text))
+
+
+def _sig(body):
+    """signature text of a definition (binders and type, up to the first `:=` that ends a line)"""
+    m = re.search(r":=[ \t]*\n", body)
+    return re.sub(r"\s+", " ", body[:m.start()] if m else body)
 
 
 def try_equivalence(lean_dir, gen_dir, ref_dir, log, timeout=1500):
@@ -126,14 +262,21 @@ def try_equivalence(lean_dir, gen_dir, ref_dir, log, timeout=1500):
     os.makedirs(new_dir, exist_ok=True)
     eqs = []
     mods = []
-    for f in changed_files:
-        if f in ("All.lean", "Dispatch.lean"):
+    files = {}          # file -> (prelude, [changed def texts], [aux texts of GenNew loops], [aux texts of reference loops])
+    fold_new, fold_ref = [], []
+    changed_names, all_new_items = set(), []
+    sig_changed = []    # loop helpers whose type changed: no equation can be stated for them (see below)
+    for f in gen_files:
+        if f in ("All.lean", "Dispatch.lean") or f not in changed_files:
+            if f.endswith(".lean") and f not in ("All.lean", "Dispatch.lean"):
+                all_new_items.extend(split_defs(texts[f][0])[1])
             continue
         new, ref = texts[f]
         pre_n, items_n = split_defs(new)
         pre_r, items_r = split_defs(ref)
+        all_new_items.extend(items_n)
         refmap = {n: b for (_, n, b) in items_r}
-        out = []
+        out, aux_n, aux_r = [], [], []
         for kind, name, body in items_n:
             if name in refmap and refmap[name] == body:
                 continue
@@ -142,11 +285,25 @@ def try_equivalence(lean_dir, gen_dir, ref_dir, log, timeout=1500):
                 shutil.rmtree(new_dir, ignore_errors=True)
                 return res
             out.append(body)
+            changed_names.add(name)
+            a = list_loop_aux(name, body)
+            if a:
+                aux_n.append(a)
+                fold_new.append(f"Statrs.GenNew.{name}.mq_fold")
             if name in refmap:
-                eqs.append(name)
+                if re.search(r"\.loop\d+$", name) and _sig(refmap[name]) != _sig(body):
+                    sig_changed.append(name)
+                else:
+                    eqs.append(name)
+        # list loops of the reference model that the changed definitions used (rewrite in the other direction: loop → iterator chain)
+        for kind, name, body in items_r:
+            if kind == "def" and re.search(r"\.loop\d+$", name) and re.sub(r"\.loop\d+$", "", name) in changed_names:
+                a = list_loop_aux(name, body)
+                if a:
+                    aux_r.append(a)
+                    fold_ref.append(f"Statrs.Gen.{name}.mq_fold")
         removed = [n for (_, n, _) in items_r if n not in {n2 for (_, n2, _) in items_n}]
         res.setdefault("removed", []).extend(removed)
-        ns = re.search(r"^namespace\s+(\S+)", pre_n, re.M)
         pre = pre_n.replace("-- GENERATED", "-- definitions of the regenerated model that differ from the reference model (modeleq.py); GENERATED")
         pre = re.sub(r"^namespace\s+Statrs\.Gen\s*$", "namespace Statrs.GenNew\nopen Statrs.Gen", pre, flags=re.M)
         if "namespace Statrs.GenNew" not in pre:
@@ -155,32 +312,66 @@ def try_equivalence(lean_dir, gen_dir, ref_dir, log, timeout=1500):
             return res
         # the changed file may use definitions of its own reference version and of everything it imported
         pre = pre.replace("set_option", f"import Statrs.Gen.{f[:-5]}\nset_option", 1)
-        open(os.path.join(new_dir, f), "w").write(pre + "".join(out) + "\nend Statrs.GenNew\n")
+        files[f] = (pre, out, aux_n, aux_r)
         mods.append("Statrs.GenNew." + f[:-5])
+    # A lifted loop `f.loopK` whose TYPE changed (e.g. `while` ↔ `for`: fuel loop ↔ list loop) cannot be equated with the
+    # reference loop of that name.  It is a private helper of `f`: the scheme stays sound if every definition of the new
+    # model that mentions it is itself a changed definition (so it either gets its own equation, proved with whatever
+    # the helper now is, or is such a helper again).  Otherwise: no attempt.
+    for h in sig_changed:
+        users = [n for (_, n, b) in all_new_items if n != h and h in _tokens(b)]
+        bad = [n for n in users if n not in changed_names]
+        if bad:
+            res["status"] = f"not-attempted:type of {h} changed and {bad[0]} (unchanged text) uses it"
+            shutil.rmtree(new_dir, ignore_errors=True)
+            return res
     res["changed"] = eqs
     res["files"] = changed_files
-    with open(os.path.join(new_dir, "Equiv.lean"), "w") as fh:
-        fh.write("import Mathlib.Tactic\nimport Statrs.Gen.All\n" + "".join(f"import {m}\n" for m in mods))
-        fh.write("set_option maxRecDepth 8192\nset_option linter.unusedVariables false\nset_option linter.unusedTactic false\nset_option linter.unreachableTactic false\nnamespace Statrs.GenNew.Equiv\nopen Statrs\n")
-        fh.write(TACTIC)
-        for i, n in enumerate(eqs):
-            fh.write(f"theorem eq_{i} : @Statrs.GenNew.{n} = @Statrs.Gen.{n} := by\n  model_equiv Statrs.GenNew.{n} Statrs.Gen.{n}\n")
-        fh.write("end Statrs.GenNew.Equiv\n")
+    res["helpers_without_equation"] = sig_changed
+
+    def write(with_aux):
+        for f, (pre, out, aux_n, aux_r) in files.items():
+            txt = pre + "".join(out)
+            if with_aux and aux_n:
+                txt += "\n-- fold lemmas of the list loops (modeleq.py)\n" + "\n".join(aux_n)
+            txt += "\nend Statrs.GenNew\n"
+            if with_aux and aux_r:
+                txt += "\nnamespace Statrs.Gen\nopen Statrs\n" + "\n".join(aux_r) + "\nend Statrs.Gen\n"
+            open(os.path.join(new_dir, f), "w").write(txt)
+        folds = (fold_new + fold_ref) if with_aux else []
+        tac = TACTIC.replace("MQ_FOLD", ", ".join(folds + FOLD_SIMP))
+        with open(os.path.join(new_dir, "Equiv.lean"), "w") as fh:
+            fh.write("import Mathlib.Tactic\nimport Statrs.Gen.All\n" + "".join(f"import {m}\n" for m in mods))
+            fh.write("set_option maxRecDepth 8192\nset_option linter.unusedVariables false\nset_option linter.unusedTactic false\nset_option linter.unreachableTactic false\nset_option linter.unusedSimpArgs false\nnamespace Statrs.GenNew.Equiv\nopen Statrs\n")
+            fh.write(tac)
+            for i, n in enumerate(eqs):
+                fh.write(f"theorem eq_{i} : @Statrs.GenNew.{n} = @Statrs.Gen.{n} := by\n  model_equiv Statrs.GenNew.{n} Statrs.Gen.{n}\n")
+            fh.write("end Statrs.GenNew.Equiv\n")
+
+    def build():
+        try:
+            p = subprocess.run(["lake", "build", "Statrs.GenNew.Equiv"], cwd=lean_dir, capture_output=True, text=True, timeout=timeout)
+            return p.returncode == 0, p.stdout + p.stderr
+        except subprocess.TimeoutExpired:
+            return False, "timeout"
+
     # restore the reference text so that the equations are about the model the theorems were built against
     for f in changed_files + comment_only:
         open(os.path.join(gen_dir, f), "w").write(texts[f][1])
-    try:
-        p = subprocess.run(["lake", "build", "Statrs.GenNew.Equiv"], cwd=lean_dir, capture_output=True, text=True, timeout=timeout)
-        ok, out = p.returncode == 0, p.stdout + p.stderr
-    except subprocess.TimeoutExpired:
-        ok, out = False, "timeout"
+    has_aux = bool(fold_new or fold_ref)
+    write(has_aux)
+    ok, out = build()
+    if not ok and has_aux and not re.search(r"GenNew/Equiv\.lean:\d+", out):
+        # an auxiliary lemma (not an equation) failed: fall back to the run without auxiliary lemmas
+        res["aux_failed"] = "\n".join(l for l in out.splitlines() if "error" in l)[:1500]
+        write(False)
+        ok, out = build()
     if ok and not re.search(r"\bsorry\b", out):
         res["status"] = "equivalent"
         res["proved"] = eqs
+        res["aux"] = fold_new + fold_ref if has_aux else []
         return res
-    # which equations failed (best effort, for the report)
-    bad = sorted(set(re.findall(r"Equiv\.lean:(\d+):", out)))
-    res["failed"] = eqs if not bad else [eqs[min(len(eqs) - 1, max(0, (int(l) - 1) // 1))] for l in []] or eqs
+    res["failed"] = eqs
     res["log"] = "\n".join(l for l in out.splitlines() if "error" in l)[:3000]
     res["status"] = "not-equivalent"
     for f in changed_files + comment_only:
